@@ -2,7 +2,7 @@ SPECIFICATION Spec
 CONSTANTS
   Part = "split"
   UNames <- UAll
-  UNames3 <- UNum
+  UNames3 <- UNumQ
   MaxLen = 3
   ArgsOne <- AOneAll
   ArgsPair <- APairAll
